@@ -382,6 +382,93 @@ theorem modeKeeper_emitRData (t : Nat) (d : RData) (hp : d.proved = true) : Mode
     rcases hf with rfl | rfl <;> exact modeKeeper_emitCharacterData _
   case null d => exact modeKeeper_emitSlice d
   case unknown c d => exact modeKeeper_emitSlice d
+  case openpgpkey d => exact modeKeeper_emitSlice d
+  case cert ct tag alg d =>
+    refine modeKeeper_withRdataBehavior (modeKeeper_seqAll _ ?_) _
+    intro f hf
+    simp only [List.mem_cons, List.not_mem_nil, or_false] at hf
+    rcases hf with rfl | rfl | rfl | rfl
+    all_goals first | exact modeKeeper_emitU16 _ | exact modeKeeper_emitU8 _ | exact modeKeeper_emitSlice _
+  case tsig alg time fudge mac oid err other =>
+    have eo : ∀ (c : Prop) [Decidable c] (f : Enc → ERes Unit), ModeKeeper f →
+        ModeKeeper (fun e => if c then .err .other e else f e) := by
+      intro c _ f hf e
+      by_cases hc : c
+      · show match (if c then ERes.err EncErr.other e else f e) with
+          | .ok _ e' => e'.canonicalForm = e.canonicalForm ∧ e'.nameEncoding = e.nameEncoding
+          | .err _ e' => e'.canonicalForm = e.canonicalForm ∧ e'.nameEncoding = e.nameEncoding
+          | .panic _ => True
+        rw [if_pos hc]; exact ⟨rfl, rfl⟩
+      · show match (if c then ERes.err EncErr.other e else f e) with
+          | .ok _ e' => e'.canonicalForm = e.canonicalForm ∧ e'.nameEncoding = e.nameEncoding
+          | .err _ e' => e'.canonicalForm = e.canonicalForm ∧ e'.nameEncoding = e.nameEncoding
+          | .panic _ => True
+        rw [if_neg hc]; exact hf e
+    refine modeKeeper_withRdataBehavior (modeKeeper_seqAll _ ?_) _
+    intro f hf
+    simp only [List.mem_cons, List.not_mem_nil, or_false] at hf
+    rcases hf with rfl | rfl | rfl | rfl | rfl | rfl | rfl | rfl | rfl | rfl
+    · exact modeKeeper_emitName _
+    · exact eo _ _ (modeKeeper_emitU16 _)
+    · exact modeKeeper_emitU32 _
+    · exact modeKeeper_emitU16 _
+    · exact eo _ _ (modeKeeper_emitU16 _)
+    · exact modeKeeper_emitSlice _
+    · exact modeKeeper_emitU16 _
+    · exact modeKeeper_emitU16 _
+    · exact eo _ _ (modeKeeper_emitU16 _)
+    · exact modeKeeper_emitSlice _
+  case naptr order pref flags services regexp n =>
+    refine modeKeeper_withRdataBehavior (modeKeeper_seqAll _ ?_) _
+    intro f hf
+    simp only [List.mem_cons, List.not_mem_nil, or_false] at hf
+    rcases hf with rfl | rfl | rfl | rfl | rfl | rfl
+    · exact modeKeeper_emitU16 _
+    · exact modeKeeper_emitU16 _
+    · exact modeKeeper_emitCharacterData _
+    · exact modeKeeper_emitCharacterData _
+    · exact modeKeeper_emitCharacterData _
+    · exact modeKeeper_emitName _
+  case sig covered alg labels ottl exp inc tag signer sg =>
+    refine modeKeeper_withRdataBehavior (modeKeeper_seqAll _ ?_) _
+    intro f hf
+    simp only [List.mem_cons, List.not_mem_nil, or_false] at hf
+    rcases hf with rfl | rfl
+    · refine modeKeeper_withRdataBehavior (modeKeeper_seqAll _ ?_) _
+      intro g hg
+      simp only [List.mem_cons, List.not_mem_nil, or_false] at hg
+      rcases hg with rfl | rfl | rfl | rfl | rfl | rfl | rfl | rfl
+      · exact modeKeeper_emitU16 _
+      · exact modeKeeper_emitU8 _
+      · exact modeKeeper_emitU8 _
+      · exact modeKeeper_emitU32 _
+      · exact modeKeeper_emitU32 _
+      · exact modeKeeper_emitU32 _
+      · exact modeKeeper_emitU16 _
+      · exact modeKeeper_emitName _
+    · exact modeKeeper_emitSlice _
+  case caa cr rs tag v =>
+    refine modeKeeper_withRdataBehavior (modeKeeper_seqAll _ ?_) _
+    intro f hf
+    simp only [List.mem_cons, List.not_mem_nil, or_false] at hf
+    rcases hf with rfl | rfl | rfl | rfl
+    · exact modeKeeper_emitU8 _
+    · by_cases hl : tag.length > 255
+      · simp only [hl, ↓reduceIte]; intro e; exact ⟨rfl, rfl⟩
+      · simp only [hl, ↓reduceIte]; exact modeKeeper_emitU8 _
+    · exact modeKeeper_emitSlice _
+    · exact modeKeeper_emitSlice _
+  all_goals
+    refine modeKeeper_seqAll _ ?_
+    intro f hf
+    simp only [List.mem_cons, List.not_mem_nil, or_false] at hf
+    first
+      | (rcases hf with rfl | rfl | rfl | rfl | rfl
+         all_goals first | exact modeKeeper_emitU16 _ | exact modeKeeper_emitU8 _ | exact modeKeeper_emitSlice _)
+      | (rcases hf with rfl | rfl | rfl | rfl
+         all_goals first | exact modeKeeper_emitU16 _ | exact modeKeeper_emitU8 _ | exact modeKeeper_emitSlice _)
+      | (rcases hf with rfl | rfl | rfl
+         all_goals first | exact modeKeeper_emitU16 _ | exact modeKeeper_emitU8 _ | exact modeKeeper_emitSlice _)
 
 theorem modeKeeper_emitRecord (r : Record) (hp : r.rdata.isUpdate = true ∨ r.rdata.proved = true) :
     ModeKeeper (emitRecord r) := by
